@@ -81,13 +81,14 @@ def check(chk: Check) -> None:
     chk.trusted += ["protobuf: parse_length_prefixed delivers whole frames, None at clean EOF, raises on a torn frame", "jstat.refenc/refdec"]
     chk.undecided += ["what protobuf does with a frame torn at a particular byte", "cuts inside the first three bytes (header shorter than the probe; parsing raises either way)"]
     jobs = []
+    thorough = chk.tier == "thorough"
     for physical in (1, 2, 3):
-        for j in (0, 1, 2, 4):
+        for j in ((0, 1, 2, 3, 4, 5, 6, 7) if thorough else (0, 1, 2, 4)):
             for cut in ("eof", "torn"):
                 for integ in ("generic", "rdflib"):
                     for parser in ("parse_jelly_flat", "parse_jelly_grouped"):
                         jobs.append(dict(physical=physical, complete=j, cut=cut, integ=integ, parser=parser))
-                        if physical == 1 and j in (1, 2):
+                        if (physical == 1 and j in (1, 2)) or (thorough and j in (0, 1, 2, 3, 5)):
                             for src in ("raw-nonseekable", "buffered-nonseekable"):
                                 jobs.append(dict(physical=physical, complete=j, cut=cut, integ=integ, parser=parser, source=src))
     for res in pmap(run, jobs):
